@@ -221,6 +221,12 @@ func (d *c09) calibrate() bool {
 			// (cells beyond the operations of a particular run are counted
 			// as faults_not_reached / actions_not_reached).
 			counts := b.preEpilogue
+			if pl, ok := b.lk.(*pipeLink); ok {
+				// Whether the receive loop has already re-entered
+				// RecvMessage after its last message is a race; the number
+				// of calls it makes is messages delivered + 1.
+				counts[opRecv] = int(atomic.LoadInt32(&pl.sentToConn)) + 1
+			}
 			for k := opKind(0); k < nOpKinds; k++ {
 				if counts[k] > 0 {
 					counts[k] += epilogueAllowance[k]
